@@ -292,19 +292,132 @@ package opset13
 //@   loop 1 invariant len(shape) == len(nodeShape) && fresh(shape) && base(shape) != 0 && (forall k :: 0 <= k && k < $i ==> shape[k] == nodeShape[k])
 
 //@ spec strictly_increasing(s []int) bool = forall m :: 0 <= m && m < len(s) - 1 ==> s[m] < s[m+1]
+//@ spec pairwise_increasing(s []int) bool = forall a :: (forall b :: 0 <= a && a < b && b < len(s) ==> s[a] < s[b])
+
+//@ spec ismemb(s []int, r int, x int) bool = memb(arr(s), off(s), len(s), r, x)
+//@ spec nk(s []int, r int, i int) int = nkept(arr(s), off(s), len(s), r, i)
 
 //@ func insertOnes
 //@   tags C07
 //@   requires strictly_increasing(indices) && (forall m :: 0 <= m && m < len(indices) ==> 0 <= indices[m] && indices[m] < len(original) + len(indices))
-//@   requires seqmark(arr(indices), off(indices), len(indices)) || !seqmark(arr(indices), off(indices), len(indices))
+//@   requires pairwise_increasing(indices)
+//@   requires seqmarkb(arr(indices), off(indices), len(indices), len(original) + len(indices)) || !seqmarkb(arr(indices), off(indices), len(indices), len(original) + len(indices))
 //@   ensures len(result) == len(original) + len(indices) && fresh(result) && base(result) != 0
 //@   ensures ones_at_axes: forall m :: 0 <= m && m < len(indices) ==> result[indices[m]] == 1
-//@   ensures others_from_input: forall i :: 0 <= i && i < len(result) && (forall m :: 0 <= m && m < len(indices) ==> indices[m] != i) ==>
-//@          (exists o :: 0 <= o && o < len(original) && o <= i && result[i] == original[o])
+//@   ensures others_in_order: forall i :: 0 <= i && i < len(result) && !ismemb(indices, 0, i) ==>
+//@          0 <= nk(indices, 0, i) && nk(indices, 0, i) < len(original) && result[i] == original[nk(indices, 0, i)]
+//@   ensures count_preserved: nelems(result) == nelems(original)
+//@   ensures positive_kept: ints_positive(original) ==> ints_positive(result)
+//@   loop 1 invariant ints_positive(original) ==> (forall k :: 0 <= k && k < i ==> newShape[k] >= 1)
 //@   loop 1 invariant 0 <= i && i <= N && N == len(original) + len(indices) && originalIdx + indicesIdx == i && 0 <= indicesIdx && indicesIdx <= len(indices) && 0 <= originalIdx &&
 //@          len(newShape) == N && fresh(newShape) && base(newShape) != 0
 //@   loop 1 invariant forall m :: 0 <= m && m < indicesIdx ==> indices[m] < i && newShape[indices[m]] == 1
 //@   loop 1 invariant forall m :: indicesIdx <= m && m < len(indices) ==> indices[m] >= i
-//@   loop 1 invariant indicesIdx < len(indices) ==> indices[len(indices)-1] >= indices[indicesIdx] + (len(indices) - 1 - indicesIdx)
-//@   loop 1 invariant forall k :: 0 <= k && k < i && (forall m :: 0 <= m && m < len(indices) ==> indices[m] != k) ==>
-//@          (exists o :: 0 <= o && o < originalIdx && o <= k && newShape[k] == original[o])
+//@   loop 1 invariant forall m :: 0 <= m && m < len(indices) ==> indices[m] <= len(original) + m
+//@   loop 1 invariant originalIdx <= len(original)
+//@   loop 1 invariant originalIdx == nk(indices, 0, i)
+//@   loop 1 invariant forall k :: 0 <= k && k < i && !ismemb(indices, 0, k) ==> 0 <= nk(indices, 0, k) && nk(indices, 0, k) < originalIdx && newShape[k] == original[nk(indices, 0, k)]
+//@   loop 1 invariant prod(arr(newShape), off(newShape), i) == prod(arr(original), off(original), originalIdx)
+
+//@ func keepDim
+//@   tags C07
+//@   ensures result <==> !ismemb(dimsToSqueeze, 0, dim)
+//@   loop 1 invariant forall k :: 0 <= k && k < $i ==> dimsToSqueeze[k] != dim
+
+//@ func getNewShape
+//@   tags C07
+//@   ensures len(result) == nk(dimsToSqueeze, 0, len(currentShape)) && (result == nil || fresh(result))
+//@   ensures kept_in_order: forall i :: 0 <= i && i < len(currentShape) && !ismemb(dimsToSqueeze, 0, i) ==> result[nk(dimsToSqueeze, 0, i)] == currentShape[i]
+//@   ensures count_preserved: (forall i :: 0 <= i && i < len(currentShape) && ismemb(dimsToSqueeze, 0, i) ==> currentShape[i] == 1) ==> nelems(result) == nelems(currentShape)
+//@   ensures positive_kept: ints_positive(currentShape) ==> ints_positive(result)
+//@   loop 1 invariant ints_positive(currentShape) ==> ints_positive(newShape)
+//@   loop 1 invariant len(newShape) == nk(dimsToSqueeze, 0, $i) && (newShape == nil || fresh(newShape)) && base(newShape) != base(currentShape) && base(newShape) != base(dimsToSqueeze)
+//@   loop 1 invariant forall k :: 0 <= k && k < $i && !ismemb(dimsToSqueeze, 0, k) ==> newShape[nk(dimsToSqueeze, 0, k)] == currentShape[k]
+//@   loop 1 invariant (forall k :: 0 <= k && k < $i && ismemb(dimsToSqueeze, 0, k) ==> currentShape[k] == 1) ==> nelems(newShape) == prod(arr(currentShape), off(currentShape), $i)
+
+//@ func getDimsToSqueezeFromShape
+//@   tags C07
+//@   ensures (result == nil || fresh(result)) && (forall k :: 0 <= k && k < len(result) ==> 0 <= result[k] && result[k] < len(shape) && shape[result[k]] == 1)
+//@   ensures forall x :: 0 <= x && x < len(shape) && shape[x] == 1 ==> (exists k :: 0 <= k && k < len(result) && result[k] == x)
+//@   loop 1 invariant (result == nil || fresh(result)) && base(result) != base(shape) && (forall k :: 0 <= k && k < len(result) ==> 0 <= result[k] && result[k] < $i && shape[result[k]] == 1)
+//@   loop 1 invariant forall x :: 0 <= x && x < $i && shape[x] == 1 ==> (exists k :: 0 <= k && k < len(result) && result[k] == x)
+
+//@ func getDimsToSqueezeFromTensor
+//@   tags C07
+//@   requires t != nil
+//@   scope validated: dtype(t) == Int64
+//@   ensures rank(t) >= 1 ==> err == nil && len(result) == blen(t) && (result == nil || fresh(result)) &&
+//@          (forall k :: 0 <= k && k < blen(t) ==> result[k] == normax(telem(t, "int64", k), nDims))
+//@   ensures err != nil ==> result == nil
+//@   loop 1 invariant len(dimsToSqueeze) == blen(t) && (dimsToSqueeze == nil || fresh(dimsToSqueeze)) &&
+//@          (forall k :: 0 <= k && k < $i ==> dimsToSqueeze[k] == normax(telem(t, "int64", k), nDims)) &&
+//@          (forall k :: $i <= k && k < blen(t) ==> dimsToSqueeze[k] == telem(t, "int64", k))
+
+//@ spec axes_in_range(t tensor.Tensor, r int) bool = forall k :: 0 <= k && k < blen(t) ==> 0 - r <= telem(t, "int64", k) && telem(t, "int64", k) <= r - 1
+//@ spec axes_distinct(t tensor.Tensor, r int) bool = forall a :: (forall b :: 0 <= a && a < b && b < blen(t) ==> normax(telem(t, "int64", a), r) != normax(telem(t, "int64", b), r))
+//@ spec isaxis(t tensor.Tensor, r int, x int) bool = memb(arr(tdata(t, "int64")), off(tdata(t, "int64")), blen(t), r, x)
+//@ spec keptbefore(t tensor.Tensor, r int, i int) int = nkept(arr(tdata(t, "int64")), off(tdata(t, "int64")), blen(t), r, i)
+
+//@ func (*Unsqueeze).Apply
+//@   tags C07,C02
+//@   requires self != nil && len(inputs) == 2 && inputs[0] != nil && inputs[1] != nil
+//@   scope validated_and_positive: dtype(inputs[1]) == Int64 && rank(inputs[1]) == 1 && dims_positive(inputs[0])
+//@   before insertOnes assert axes_normalised: forall m :: 0 <= m && m < len(axes) ==> 0 <= axes[m] && axes[m] < outputRank
+//@   before insertOnes assert axes_pairwise: pairwise_increasing(axes)
+//@   before insertOnes assert axes_adjacent: strictly_increasing(axes)
+//@   before Ints assert normalised_same_set: forall x ::
+//@          (membext(arr(axes), off(axes), len(axes), 0, arr(tdata(inputs[1], "int64")), off(tdata(inputs[1], "int64")), outputRank) ||
+//@           !membext(arr(axes), off(axes), len(axes), 0, arr(tdata(inputs[1], "int64")), off(tdata(inputs[1], "int64")), outputRank)) &&
+//@          (ismemb(axes, 0, x) <==> isaxis(inputs[1], outputRank, x))
+//@   before Ints assert normalised_pointwise: forall k :: 0 <= k && k < len(axes) ==> axes[k] == normax(telem(inputs[1], "int64", k), outputRank)
+//@   before Ints assert normalised_distinct: axes_distinct(inputs[1], rank(inputs[0]) + blen(inputs[1])) ==> (forall a :: (forall b :: 0 <= a && a < b && b < len(axes) ==> axes[a] != axes[b]))
+//@   before Ints assert normalised_duplicates: !axes_distinct(inputs[1], rank(inputs[0]) + blen(inputs[1])) ==> (exists a :: (exists b :: 0 <= a && a < b && b < len(axes) && axes[a] == axes[b]))
+//@   before Reshape assert axes_are_members: forall k :: 0 <= k && k < blen(inputs[1]) ==> ismemb(axes, 0, normax(telem(inputs[1], "int64", k), outputRank))
+//@   before Reshape assert no_duplicates_here: axes_distinct(inputs[1], rank(inputs[0]) + blen(inputs[1]))
+//@   before Reshape assert new_shape_ones: forall k :: 0 <= k && k < blen(inputs[1]) ==> newShape[normax(telem(inputs[1], "int64", k), outputRank)] == 1
+//@   before Reshape assert axes_same_set: forall x :: ismemb(axes, 0, x) <==> isaxis(inputs[1], outputRank, x)
+//@   before Reshape assert same_count: forall i :: 0 <= i && i <= outputRank ==>
+//@          (nkcong(arr(axes), off(axes), len(axes), 0, arr(tdata(inputs[1], "int64")), off(tdata(inputs[1], "int64")), blen(inputs[1]), outputRank, i) ||
+//@           !nkcong(arr(axes), off(axes), len(axes), 0, arr(tdata(inputs[1], "int64")), off(tdata(inputs[1], "int64")), blen(inputs[1]), outputRank, i)) &&
+//@          nk(axes, 0, i) == keptbefore(inputs[1], outputRank, i)
+//@   ensures out_of_range_refused: !axes_in_range(inputs[1], rank(inputs[0]) + blen(inputs[1])) ==> err != nil
+//@   ensures duplicates_refused: !axes_distinct(inputs[1], rank(inputs[0]) + blen(inputs[1])) ==> err != nil
+//@   ensures valid_axes_accepted: axes_in_range(inputs[1], rank(inputs[0]) + blen(inputs[1])) && axes_distinct(inputs[1], rank(inputs[0]) + blen(inputs[1])) ==> err == nil
+//@   ensures keeps_elements: err == nil ==> len(result) == 1 && result[0] != nil && fresh(result[0]) && contents(result[0]) == contents(inputs[0]) &&
+//@          dtype(result[0]) == dtype(inputs[0]) && rank(result[0]) == rank(inputs[0]) + blen(inputs[1])
+//@   ensures ones_at_axes: err == nil ==> (forall k :: 0 <= k && k < blen(inputs[1]) ==>
+//@          dim(result[0], normax(telem(inputs[1], "int64", k), rank(inputs[0]) + blen(inputs[1]))) == 1)
+//@   ensures others_in_order: err == nil ==> (forall i :: 0 <= i && i < rank(result[0]) && !isaxis(inputs[1], rank(inputs[0]) + blen(inputs[1]), i) ==>
+//@          dim(result[0], i) == dim(inputs[0], keptbefore(inputs[1], rank(inputs[0]) + blen(inputs[1]), i)))
+
+// Not discharged (and therefore not claimed) for Squeeze without an axes input: that EVERY extent-1
+// axis is removed (default_unit_are_members / default_squeezed_shape); what is proved for that mode
+// is that only extent-1 axes are removed, that the kept extents stay in order and that the request
+// succeeds with the element count preserved.
+//@ func (*Squeeze).Apply
+//@   tags C07,C02
+//@   requires self != nil && len(inputs) == 2 && inputs[0] != nil
+//@   scope validated_and_positive: dims_positive(inputs[0]) && (inputs[1] != nil ==> dtype(inputs[1]) == Int64 && rank(inputs[1]) == 1)
+//@   before getNewShape assert axes_same_set: inputs[1] != nil ==> (forall x ::
+//@          (membext(arr(dimsToSqueeze), off(dimsToSqueeze), len(dimsToSqueeze), 0, arr(tdata(inputs[1], "int64")), off(tdata(inputs[1], "int64")), nDims) ||
+//@           !membext(arr(dimsToSqueeze), off(dimsToSqueeze), len(dimsToSqueeze), 0, arr(tdata(inputs[1], "int64")), off(tdata(inputs[1], "int64")), nDims)) &&
+//@          (ismemb(dimsToSqueeze, 0, x) <==> isaxis(inputs[1], nDims, x)))
+//@   before getNewShape assert same_count: inputs[1] != nil ==> (forall i :: 0 <= i && i <= nDims ==>
+//@          (nkcong(arr(dimsToSqueeze), off(dimsToSqueeze), len(dimsToSqueeze), 0, arr(tdata(inputs[1], "int64")), off(tdata(inputs[1], "int64")), blen(inputs[1]), nDims, i) ||
+//@           !nkcong(arr(dimsToSqueeze), off(dimsToSqueeze), len(dimsToSqueeze), 0, arr(tdata(inputs[1], "int64")), off(tdata(inputs[1], "int64")), blen(inputs[1]), nDims, i)) &&
+//@          nk(dimsToSqueeze, 0, i) == keptbefore(inputs[1], nDims, i))
+//@   before getNewShape assert default_members_are_unit: inputs[1] == nil ==> (forall x :: 0 <= x && x < nDims && ismemb(dimsToSqueeze, 0, x) ==> currentShape[x] == 1)
+//@   before getNewShape assert axes_members_unit: inputs[1] != nil && (forall k :: 0 <= k && k < blen(inputs[1]) ==> dim(inputs[0], normax(telem(inputs[1], "int64", k), rank(inputs[0]))) == 1) ==>
+//@          (forall x :: 0 <= x && x < nDims && ismemb(dimsToSqueeze, 0, x) ==> currentShape[x] == 1)
+//@   before Reshape assert new_shape_positive: ints_positive(newShape)
+//@   before Reshape assert default_count_kept: inputs[1] == nil ==> nelems(newShape) == nelems(currentShape)
+//@   before Reshape assert axes_count_kept: inputs[1] != nil && (forall k :: 0 <= k && k < blen(inputs[1]) ==> dim(inputs[0], normax(telem(inputs[1], "int64", k), rank(inputs[0]))) == 1) ==> nelems(newShape) == nelems(currentShape)
+//@   before Reshape assert axes_new_shape: inputs[1] != nil ==> len(newShape) == keptbefore(inputs[1], nDims, nDims) &&
+//@          (forall i :: 0 <= i && i < nDims && !isaxis(inputs[1], nDims, i) ==> newShape[keptbefore(inputs[1], nDims, i)] == currentShape[i])
+//@   ensures axes_out_of_range_refused: inputs[1] != nil && !axes_in_range(inputs[1], rank(inputs[0])) ==> err != nil
+//@   ensures default_accepted: inputs[1] == nil ==> err == nil
+//@   ensures unit_axes_accepted: inputs[1] != nil && axes_in_range(inputs[1], rank(inputs[0])) &&
+//@          (forall k :: 0 <= k && k < blen(inputs[1]) ==> dim(inputs[0], normax(telem(inputs[1], "int64", k), rank(inputs[0]))) == 1) ==> err == nil
+//@   ensures keeps_elements: err == nil ==> len(result) == 1 && result[0] != nil && fresh(result[0]) && contents(result[0]) == contents(inputs[0]) && dtype(result[0]) == dtype(inputs[0])
+//@   ensures squeezed_shape: err == nil && inputs[1] != nil ==> rank(result[0]) == keptbefore(inputs[1], rank(inputs[0]), rank(inputs[0])) &&
+//@          (forall i :: 0 <= i && i < rank(inputs[0]) && !isaxis(inputs[1], rank(inputs[0]), i) ==> dim(result[0], keptbefore(inputs[1], rank(inputs[0]), i)) == dim(inputs[0], i))
